@@ -108,6 +108,9 @@ def sm3(
     return all_diagonal_statistics
 
   def update_fn(updates, state, params):
+    # A restored checkpoint (flax.serialization.from_bytes) holds NumPy leaves,
+    # whose promotion rules with Python scalars differ from JAX's.
+    state = jax.tree.map(jnp.asarray, state)
     stats = state.stats
     if normalize_grads:
       updates = jax.tree.map(
